@@ -324,6 +324,7 @@ inductive Op where
   | wPar (p : Option Ph) (i : Nat) (x : Rat)
   | wT (x : Rat) | wP (x : Rat)
   | wvT (h : Nat) (x : Rat) | wvP (h : Nat) (x : Rat)
+  | vPhase (h : Nat) (p : Ph)
   | save
   | restore (k : Nat)
 
@@ -346,6 +347,10 @@ def World.step (w : World) : Op → Except Err World
   | .wP x => .ok (w.setP w.s.tc x)
   | .wvT h x => if h < w.nView then .ok (w.setT (w.view h).tc x) else .error .indexError
   | .wvP h x => if h < w.nView then .ok (w.setP (w.view h).tc x) else .error .indexError
+  | .vPhase h p =>
+    -- `handle.phase = p`: the phase of a view is a `LockedPhase`
+    if h < w.nView then (if (w.view h).phase == p then .ok w else .error .attributeError)
+    else .error .indexError
   | .save => .ok w.save
   | .restore k => w.restore k
 
